@@ -23,7 +23,8 @@ PROP = dict(
         # every shipped estimator / bet through the dispatch used by the tests
         "Shangrla.C13.estim_range", "Shangrla.C13.bet_range",
         # finiteness of the outputs (Lemmas/NMRange.lean)
-        "Shangrla.NM.fixedAlternativeMean_all_fin", "Shangrla.NM.shrinkTrunc_all_fin", "Shangrla.NM.agrapa_all_fin",
+        "Shangrla.NMRange.fixedAlternativeMean_all_fin", "Shangrla.NMRange.shrinkTrunc_all_fin",
+        "Shangrla.NMRange.agrapa_all_fin",
     ],
     groups={"nm": (1500, 30000)},
     design_ref="DESIGN.md section 5, C13",
